@@ -146,8 +146,19 @@ WL = {
     },
     COB: {
         'enum_name': 'SAttrName', 'tag.name': 'SEnumName', 'i + 1': 'SNum',
+        # validators: "invalid X; expected <class>, received <the wrongly typed value>"
+        # KeyValue.read() stores a KeyMaterialStruct when the key material is a Structure; that is the only
+        # non-KeyMaterial value the decode path can produce.  It is rendered by the default object repr
+        # (class name + address) - checked on every run: OBJ:<Class> is safe only while neither the class nor
+        # its package bases define __str__ / __repr__ / __format__.
+        ('KeyValue.__validate', 'self.key_material'): 'OBJ:KeyMaterialStruct',
+        ('KeyValue.__validate', 'self.attributes[i]'): 'SClientText', ('KeyValue.__validate', 'self.attributes'): 'SClientText',
+        'self.extension_name': 'SClientText', 'self.extension_tag': 'SClientText', 'self.extension_type': 'SClientText',
     },
     CAT: {
+        ('Digest.__validate', 'self.hashing_algorithm'): 'SClientText',   # wrongly typed Digest fields (a digest is
+        ('Digest.__validate', 'self.digest_value'): 'SClientText',        # a hash of the object, not key material)
+        ('Digest.__validate', 'self.key_format_type'): 'SClientText',
         'name': 'STypeName', 'member': 'SAttrName',            # Name.__validate: class / member names (literals)
         "'{0}.{1}'.format(name, member)": 'STypeName',
     },
@@ -159,6 +170,10 @@ WL = {
     CHE: {'filenames': 'SClientText', 'config_option_name': 'SClientText', 'CONFIG_FILE': 'SClientText',
           'ARG_MSG': 'STemplate', 'CONF_MSG': 'STemplate', 'DEFAULT_MSG': 'STemplate'},
     'kmip/core/messages/contents.py': {'i + 1': 'SNum'},
+    'kmip/core/messages/payloads/discover_versions.py': {'self.protocol_versions[i]': 'SVersion', 'self.protocol_versions': 'SVersion'},
+    'kmip/core/messages/payloads/rekey_key_pair.py': {
+        'self.private_key_uuid': 'SUid', 'self.offset': 'SNum', 'self.common_template_attribute': 'SClientText',
+        'self.private_key_template_attribute': 'SClientText', 'self.public_key_template_attribute': 'SClientText'},
     'kmip/core/messages/payloads/get_attribute_list.py': {'i + 1': 'SNum'},
     'kmip/core/messages/payloads/get_attributes.py': {'i + 1': 'SNum'},
     'kmip/core/factories/attribute_values.py': {'name': 'SAttrName', 'enum': 'SEnumName'},
@@ -187,7 +202,8 @@ def _unq(node):
 
 
 class FileScan(ast.NodeVisitor):
-    def __init__(self, rel, tree, pk_classes, referenced=()):
+    def __init__(self, rel, tree, pk_classes, referenced=(), classes=None):
+        self.classes = classes or {}
         self.rel = rel
         self.referenced = referenced
         self.tree = tree
@@ -380,8 +396,8 @@ class FileScan(ast.NodeVisitor):
                 return [('SUnknown', _unq(e))]
             if isinstance(f, ast.Name) and f.id == 'str' and len(e.args) == 1 and not e.keywords:
                 return self.parts(e.args[0], depth + 1)
-        if isinstance(e, ast.BoolOp) and isinstance(e.op, ast.Or) and isinstance(e.values[0], ast.Name):
-            # `e or type(e).__name__`: the caught exception's text, or its class name when the text is empty
+        if isinstance(e, ast.BoolOp) and isinstance(e.op, ast.Or) and len(e.values) >= 2:
+            # `str(e) or type(e).__name__`: the caught exception's text, or its class name when the text is empty
             first = self.parts(e.values[0], depth + 1)
             rest = [self.atom(v) for v in e.values[1:]]
             if len(first) == 1 and first[0][0] == 'SExc' and all(r[0] == 'STypeName' for r in rest):
@@ -421,13 +437,36 @@ class FileScan(ast.NodeVisitor):
             if isinstance(node, ast.Assign) and len(node.targets) == 1 and isinstance(node.targets[0], ast.Name) \
                     and node.targets[0].id == name_node.id and node.lineno < name_node.lineno:
                 assigns.append(node)
+            elif isinstance(node, ast.AugAssign) and isinstance(node.target, ast.Name) \
+                    and node.target.id == name_node.id and node.lineno < name_node.lineno:
+                assigns.append(node)
+            elif isinstance(node, (ast.For, ast.With, ast.NamedExpr)) and any(
+                    isinstance(x, ast.Name) and x.id == name_node.id and isinstance(x.ctx, ast.Store)
+                    for x in ast.walk(node.target if isinstance(node, (ast.For, ast.NamedExpr)) else node)
+                    if not isinstance(node, ast.With)) and node.lineno < name_node.lineno:
+                return [('SUnknown', 'loop/walrus-bound ' + name_node.id)]
         if not assigns:
             return None
         assigns.sort(key=lambda a: a.lineno)
+        # `msg = A; raise T(msg) ... msg = B; msg += C; raise T(msg)`: a use is fed by the assignments after the
+        # previous raise of the function (all of them must be safe); a template assigned once before several
+        # raises is still followed.
+        cut = max([n.lineno for n in ast.walk(fn) if isinstance(n, ast.Raise) and n.lineno < name_node.lineno] or [0])
+        later = [a for a in assigns if a.lineno > cut]
+        if later and isinstance(later[0], ast.Assign):
+            assigns = later
         val = None
         every = []
         for a in assigns:
             v = a.value
+            if isinstance(a, ast.AugAssign):
+                # `msg += "...".format(...)`: appended text (only `+=` on a value we already follow)
+                if isinstance(a.op, ast.Add) and val is not None:
+                    val = val + self.parts(v, 1)
+                else:
+                    val = [('SUnknown', _unq(a))]
+                every.append(val)
+                continue
             if isinstance(v, ast.Call) and isinstance(v.func, ast.Attribute) and v.func.attr == 'format' \
                     and isinstance(v.func.value, ast.Name) and v.func.value.id == name_node.id:
                 if val is not None and len(val) == 1 and val[0][0] == 'SLit':
@@ -513,10 +552,11 @@ class FileScan(ast.NodeVisitor):
     def atom(self, e):
         txt = _unq(e)
         fk = (self.func(), txt)
-        if fk in self.wl_fn:
-            return (self.wl_fn[fk], txt)
-        if txt in self.wl:
-            return (self.wl[txt], txt)
+        cls = self.wl_fn.get(fk) or self.wl.get(txt)
+        if cls is not None and cls.startswith('OBJ:'):
+            return self.default_repr_object(cls[4:], txt)
+        if cls is not None:
+            return (cls, txt)
         # shapes that mean the same everywhere
         if isinstance(e, ast.Call):
             fn = _unq(e.func)
@@ -563,6 +603,22 @@ class FileScan(ast.NodeVisitor):
         if SECRET_NAME.search(txt):
             return ('SSecret', txt)
         return ('SUnknown', txt)
+
+    def default_repr_object(self, cname, txt):
+        seen, todo, bad = set(), [cname], []
+        if cname not in self.classes:
+            return ('SUnknown', '%s: class %s not found' % (txt, cname))
+        while todo:
+            c = todo.pop()
+            if c in seen or c not in self.classes:
+                continue
+            seen.add(c)
+            bases, methods = self.classes[c]
+            bad += ['%s.%s' % (c, m) for m in ('__str__', '__repr__', '__format__') if m in methods and ('const:' + m) not in methods]
+            todo += list(bases)
+        if bad:
+            return ('SSecret', '%s: an object holding key material is formatted through %s' % (txt, ', '.join(sorted(bad))))
+        return ('STypeName', txt)
 
     def is_camel_join(self, e):
         """''.join([x.capitalize() for x in <enum name expr>.split('_')])"""
@@ -648,6 +704,20 @@ def scan(repo):
     if 'KmipError' not in pk or 'PermissionDenied' not in pk:
         raise ValueError('exception hierarchy not recognised')
     sites = []
+    classes = {}        # class name -> (base names, names defined in the class body); same-named classes are merged
+    for rel in files:
+        for node in ast.walk(trees[rel]):
+            if isinstance(node, ast.ClassDef):
+                b, m = classes.setdefault(node.name, (set(), set()))
+                b.update(_unq(x).split('.')[-1] for x in node.bases)
+                m.update(x.name for x in node.body if isinstance(x, (ast.FunctionDef, ast.AsyncFunctionDef)))
+                for x in node.body:      # `def __repr__(self): return "Struct()"` - a constant text
+                    if isinstance(x, ast.FunctionDef):
+                        body = [st for st in x.body if not (isinstance(st, ast.Expr) and isinstance(st.value, ast.Constant))]
+                        if len(body) == 1 and isinstance(body[0], ast.Return) and isinstance(body[0].value, ast.Constant) \
+                                and isinstance(body[0].value.value, str):
+                            m.add('const:' + x.name)
+                m.update(t.id for x in node.body if isinstance(x, ast.Assign) for t in x.targets if isinstance(t, ast.Name))
     referenced = set()
     for rel in files:
         for node in ast.walk(trees[rel]):
@@ -658,7 +728,7 @@ def scan(repo):
             elif isinstance(node, ast.alias):
                 referenced.add(node.name.split('.')[-1])
     for rel in files:
-        fs = FileScan(rel, trees[rel], set(pk), referenced)
+        fs = FileScan(rel, trees[rel], set(pk), referenced, classes)
         fs.visit(trees[rel])
         sites += fs.sites
     return files, pk, sites
